@@ -76,9 +76,23 @@ def validate(ctx, cfg, tracefile, n, seed, leg, hists):
         ctx.discrepancy(sig, what[:600], replay)
 
 
+CHUNK = 2000
+
+
 def run_cfg(ctx, drv, cfg, histfile, hists, n, seed, observe, tag):
     safe = re.sub(r"[^A-Za-z0-9]+", "_", cfg)
     out = ctx.path("tr_%s_%s.ndjson" % (tag, safe))
+    if hists is not None and len(hists) > CHUNK and "kv=" in cfg:
+        # on-disk KV indexes below encrypt / namespace are never closed by perkeep (no Close on those stores): one driver
+        # process per CHUNK histories keeps the number of open descriptors bounded
+        th = te = 0
+        for k in range(0, len(hists), CHUNK):
+            part = ctx.path("hist_%s_%s_%d.jsonl" % (tag, safe, k))
+            vlib.write_jsonl(part, hists[k:k + CHUNK])
+            h, e = run_cfg(ctx, drv, cfg, part, hists[k:k + CHUNK], n, seed, observe, tag)
+            os.remove(part)
+            th, te = th + h, te + e
+        return th, te
     rc, so, se = ctx.run([drv, "-cfg", cfg, "-hist", histfile, "-out", out, "-n", str(n), "-seed", str(seed)] +
                          (["-observe"] if observe else []), timeout=900, ok_codes=None)
     if rc != 0:
